@@ -159,6 +159,23 @@ class Out:
         return len(self.lines) + 1
 
 
+def _compact(o: Out, start: int, layout):
+    """Re-lay the lines emitted since `start` (one brace-language function): 'one-line' puts the whole function on its header line,
+    'pairs' joins every two body lines - several blocks then open on one physical line. Line comments would swallow what follows: left alone."""
+    seg = o.lines[start:]
+    if not layout or any("//" in ln for ln in seg) or len(seg) < 3:
+        return
+    if layout == "one-line":
+        o.lines[start:] = [seg[0] + " " + " ".join(ln.strip() for ln in seg[1:])]
+    elif layout == "body-line":
+        # header / the whole body on one line / closing brace: three physical lines whatever the depth
+        o.lines[start:] = [seg[0], seg[1][:len(seg[1]) - len(seg[1].lstrip())] + " ".join(ln.strip() for ln in seg[1:-1]), seg[-1]]
+    else:
+        body = seg[1:]
+        joined = [body[k] + (" " + body[k + 1].strip() if k + 1 < len(body) else "") for k in range(0, len(body), 2)]
+        o.lines[start:] = [seg[0]] + joined
+
+
 def _py_block(o: Out, block, lv: int, uid):
     for it in block:
         if it == "S":
@@ -386,6 +403,7 @@ def render(lang: str, funcs: list, indent: str = "    ", gap: int = 1, prefix: s
             for _ in range(gap):
                 o.emit(0, "")
             fact(f, o.lineno)
+            _start = len(o.lines)
             if f["style"] == "arrow":
                 o.emit(0, "const %s = (%s)%s => {" % (f["name"], params, ret))
                 _c_block(o, f["block"], 1, uid, lang)
@@ -413,6 +431,8 @@ def render(lang: str, funcs: list, indent: str = "    ", gap: int = 1, prefix: s
                                                      (": Promise<void>" if ty else "") if f.get("async") else ret))
                 _c_block(o, f["block"], 1, uid, lang)
                 o.emit(0, "}")
+            if f["style"] != "wrapped":
+                _compact(o, _start, f.get("layout"))
         if methods:
             for _ in range(gap):
                 o.emit(0, "")
@@ -429,9 +449,11 @@ def render(lang: str, funcs: list, indent: str = "    ", gap: int = 1, prefix: s
             for _ in range(gap):
                 o.emit(0, "")
             fact(f, o.lineno)
+            _start = len(o.lines)
             o.emit(0, "%sfn %s(a: i32, items: &[i32]) {" % ("async " if f.get("async") else "", f["name"]))
             _c_block(o, f["block"], 1, uid, lang)
             o.emit(0, "}")
+            _compact(o, _start, f.get("layout"))
         if methods:
             for _ in range(gap):
                 o.emit(0, "")
